@@ -26,8 +26,14 @@ var langTags = map[string]language.Tag{
 
 // regional variants of English / Japanese: their names are unspecified (not validated), but using
 // them must not influence what later reports in "en" / "ja" show
-var regionalTags = []language.Tag{language.MustParse("ja-JP"), language.MustParse("ja-Latn"), language.MustParse("en-GB"),
-	language.MustParse("en-US"), language.MustParse("ja-JP-u-ca-japanese"), language.MustParse("en-001")}
+var regionalTags = func() []language.Tag {
+	out := []language.Tag{}
+	for _, s := range []string{"ja-JP", "ja-Latn", "en-GB", "en-US", "ja-JP-u-ca-japanese", "en-001", "ja-US", "ja-BR", "ja-Jpan", "ja-Jpan-JP",
+		"ja-x-priv", "ja-u-ca-japanese", "ja-Latn-hepburn", "ja-KR", "en-x-priv", "en-Latn", "en-u-nu-latn", "en-JP", "en-Dsrt", "en-150", "ja-001"} {
+		out = append(out, language.Make(s))
+	}
+	return out
+}()
 
 var severityConsts = []codeConst{{"None", int(m3.SeverityNone)}, {"Low", int(m3.SeverityLow)}, {"Medium", int(m3.SeverityMedium)},
 	{"High", int(m3.SeverityHigh)}, {"Critical", int(m3.SeverityCritical)}}
